@@ -297,6 +297,10 @@ theorem unsentDestruct_sentOnly (c : Core) (ob : Nat) : SentOnly c (unsentDestru
 theorem addSent_sentOnly (c : Core) (g : Nat) (v : String) (ob : Nat) : SentOnly c (addSent c g v ob) :=
   Or.inr ⟨_, rfl⟩
 
+theorem eraseSent_sentOnly (c : Core) (g : Nat) (p : String × Nat → Bool) :
+    SentOnly c (mapSent c (fun u o => if u = g then eraseFirst p o.sent else o.sent)) :=
+  Or.inr ⟨_, rfl⟩
+
 /-- pointwise view of `sentOnly_proj` -/
 theorem sentOnly_obj {c c' : Core} (h : SentOnly c c') (i : Nat) :
     (c'.objs i).destructed = (c.objs i).destructed ∧ (c'.objs i).super = (c.objs i).super ∧
